@@ -36,10 +36,22 @@ def run_check(prop, wt, tier):
 def main():
     prop = sys.argv[1]
     wt = "/tmp/seed_%s" % prop
+    region = None
+    if prop.startswith("R3_"):
+        region = prop
     ks = sys.argv[2:] or sorted(os.listdir(os.path.join(wt, "out")))
     for k in ks:
         d = os.path.join(wt, "out", k)
+        if region:
+            # round 3: candidates are grouped by code region; the property is named in out/<k>/PROP
+            try:
+                prop = open(os.path.join(d, "PROP")).read().strip().split()[0]
+            except OSError:
+                print("== %s candidate %s: no PROP file" % (region, k))
+                continue
         meta = {"property": prop, "candidate": k, "confirmed": False}
+        if region:
+            meta["region"] = region
         print("== %s candidate %s" % (prop, k))
         rc, st = sh("git status --porcelain", cwd=wt)
         dirty = [l for l in st.splitlines() if not l.startswith("??")]
@@ -95,7 +107,7 @@ def main():
         finally:
             sh("git checkout -- .", cwd=wt)
             sh("git clean -fdq -e out -e PROPERTY.txt", cwd=wt)
-        dest = os.path.join(ROOT, "seeded", "%s-%s" % (prop, k))
+        dest = os.path.join(ROOT, "seeded", "%s-%s" % (prop, k) if not region else "%s-r3-%s-%s" % (prop, region[3:], k))
         os.makedirs(dest, exist_ok=True)
         shutil.copy(patch, os.path.join(dest, "patch.diff"))
         s = open(demo).read().replace('"%s"' % wt, 'os.environ.get("SIEVELIB_REPO", "/repo")').replace("'%s'" % wt, 'os.environ.get("SIEVELIB_REPO", "/repo")')
